@@ -103,6 +103,17 @@ def run(ctx, chk):
                 chk.bad(R, "consume(%s)%s" % (op, sname(st)), "loader is not in an analysable shape: %s" % ex, W, key="C05:shape:%s" % str(ex)[:80])
                 return
             table[(op, st)] = res
+            # the same instruction when it is not the first of its kind (a finished function in the module, a finished block in the open
+            # function): the outcome must not depend on that
+            if st != (False, True):
+                try:
+                    res2, _m2 = loaderx.consume(ctx, op, st[0], st[1], True)
+                except Anchor as ex:
+                    res2 = ("not analysable", str(ex))
+                same = res2[:1] == res[:1] and (res[0] != "error" or res2[1] == res[1]) and (res[0] != "ok" or (res2[1] == res[1] and res2[2] == res[2]))
+                chk.check(R, same, "Op%s in %s, after an earlier function and block" % (op, sname(st)),
+                          "with a finished function in the module and a finished block in the open function the outcome is %s, without them %s" % (str(res2[:3])[:200], str(res[:3])[:200]),
+                          W, key="C05:later:%s:%s" % (op, "F%dB%d" % st))
             if res[0] == "ok":
                 trans.setdefault(st, set()).add(res[2])
             if st == (False, True):
